@@ -265,6 +265,18 @@ func (e *Engine) spawnBody(origin int, name string, inc int, f func() string) {
 	res = f()
 }
 
+// callInFlight: a harness-level call of this origin has been spawned and has not returned yet.
+func (e *Engine) callInFlight(origin int) bool {
+	e.mu.Lock()
+	defer e.mu.Unlock()
+	for _, o := range e.origin {
+		if o == origin {
+			return true
+		}
+	}
+	return false
+}
+
 func (e *Engine) originOf() int {
 	gid := curGid()
 	if gid == e.mainGid {
